@@ -23,13 +23,35 @@ from vt.monitors import Monitor
 PROP = "C10"
 
 
+def _region_sampler(y0, y1, x0, x1, value):
+    def sampler(lon, lat):
+        v = np.full(lon.shape, np.nan, dtype=np.float32)
+        v[y0:y1, x0:x1] = value
+        return v
+
+    return sampler
+
+
 def updater(pio, updates, fmt):
     """One process: a sequence of read-modify-write blocks, as toasty's tiling workers do."""
     from toasty.image import Image, ImageMode
     from toasty.pyramid import Pos
 
     for pos, (y0, y1, x0, x1), value in updates:
-        src = Image.from_array(np.full((y1 - y0, x1 - x0), value, dtype=np.float32))
+        if isinstance(value, str) and value.startswith("sampler:"):
+            # the non-clobbering TOAST sampling path (ToastSampler.visit_callback), as a second sampling
+            # run over an existing layer uses it
+            from toasty.toast import ToastSampler, create_single_tile
+
+            v = float(value.split(":")[1])
+            ts = ToastSampler(pio, _region_sampler(y0, y1, x0, x1, v), False)
+            ts.visit_callback(Pos(*pos), create_single_tile(Pos(*pos)))
+            continue
+        if value is None:
+            # a contribution that defines no pixel at all (an input that is undefined over this tile)
+            src = Image.from_array(np.full((y1 - y0, x1 - x0), np.nan, dtype=np.float32))
+        else:
+            src = Image.from_array(np.full((y1 - y0, x1 - x0), value, dtype=np.float32))
         with pio.update_image(Pos(*pos), masked_mode=ImageMode.F32, default="masked", format=fmt) as basis:
             src.update_into_maskable_buffer(basis, slice(0, y1 - y0), slice(0, x1 - x0), slice(y0, y1), slice(x0, x1))
 
@@ -53,7 +75,10 @@ def serial_results(procs):
                 pos, (y0, y1, x0, x1), value = s[idx[k]]
                 t2 = {p: t.copy() for p, t in tiles.items()}
                 t = t2.setdefault(tuple(pos), np.full((256, 256), np.nan, dtype=np.float32))
-                t[y0:y1, x0:x1] = value
+                if isinstance(value, str):
+                    value = float(value.split(":")[1])
+                if value is not None:
+                    t[y0:y1, x0:x1] = value
                 rec(idx[:k] + (idx[k] + 1,) + idx[k + 1 :], t2)
 
     rec(tuple(0 for _ in seqs), {})
@@ -135,6 +160,10 @@ class UpdateHarness(Harness):
             missing = []
             for ups in self.procs:
                 for pos, (y0, y1, x0, x1), value in ups:
+                    if value is None:
+                        continue
+                    if isinstance(value, str):
+                        value = float(value.split(":")[1])
                     got = tiles[tuple(pos)]
                     if got is None or not np.any(got[y0:y1, x0:x1] == value):
                         missing.append((pos, value))
@@ -164,6 +193,15 @@ def configs(tier):
         UpdateHarness("2-disjoint-LXY-fits", [[(T1, R["left"], 1.0)], [(T1, R["right"], 2.0)]], scheme="LXY", default_format="fits"),
         UpdateHarness("2-explicit-format", [[(T0, R["left"], 1.0)], [(T0, R["top"], 2.0)]], default_format="fits", fmt="npy"),
         UpdateHarness("3-two-tiles", [[(T0, R["left"], 1.0)], [(T0, R["right"], 2.0)], [(T1, R["mid"], 3.0)]]),
+    ]
+    FULL = (0, 256, 0, 256)
+    T2 = (1, 0, 1)
+    cfgs += [
+        # one contribution defines nothing (fresh tile), the other defines pixels
+        UpdateHarness("2-one-undefined", [[(T0, R["left"], None)], [(T0, R["right"], 2.0)]]),
+        # two sampling runs in update mode on one tile: one covers it fully, one partly
+        UpdateHarness("2-samplers-full-and-part", [[(T2, FULL, "sampler:2.0")], [(T2, R["left"], "sampler:1.0")]]),
+        UpdateHarness("sampler-vs-updater", [[(T2, R["mid"], "sampler:3.0")], [(T2, R["top"], 4.0)]]),
     ]
     cfgs += [
         UpdateHarness("3-one-tile", [[(T0, R["left"], 1.0)], [(T0, R["right"], 2.0)], [(T0, R["top"], 3.0)]]),
